@@ -1886,6 +1886,10 @@ pub fn gen_reply(rng: &mut Rng, tys: &[Ty], bad: bool) -> String {
         };
         fields.push(f);
     }
+    if !single && rng.pct(3) {
+        // an odd number of double quotes: what follows the last one is inside the quotes
+        return rng.pick(&["\"abc,5", "x\",y", "a,\"b", "p\"q,r", "\"x,2,3", "1,\"", "\"a\",\"b,c"]).to_string();
+    }
     if bad && rng.pct(6) {
         // longer than the 1024-byte line buffer
         return match rng.below(3) {
